@@ -65,7 +65,7 @@ def r09_1(ctx: Ctx):
         obs.append(ctx.ob("R09.1", getter, getter.node, status=OK if ok else VIOLATION if (other or not rvals) else INCONCLUSIVE, detail="centroid recomputed from current_population on every access" if ok else f"the centroid accessor does not derive its value from current_population: `{norm(rets[0].value) if rets else '?'}`", construct="centroid-getter"))
         # no leftover cache read anywhere
         for ci in ctx.concrete_demes():
-            f = ctx.prog.lookup_method(ci, "run_metaepoch")
+            f = __import__("hmslint.rules.common", fromlist=["step_method"]).step_method(ctx, ci)
             obs.append(ctx.ob("R09.1", f, f.node, detail=f"{ci.name}: no memo to invalidate", construct=f"{ci.name}:no-memo", trivial=True))
         return obs
     M = memo[0]
